@@ -45,6 +45,7 @@ GNext ==
 GSpec == GInit /\ [][GNext]_<<vars, hist>>
 
 Bound == TLCGet("level") <= Depth
-EmitStep == PrintT(<<"BEH", ToJson(hist')>>)
+\* a behaviour that ends with a move of the environment only (hardware value, fault mode) shows nothing new
+EmitStep == IF last'.act \in {"hwset", "setmode"} THEN TRUE ELSE PrintT(<<"BEH", ToJson(hist')>>)
 AbstractView == <<lay, phase, pending, [m \in Mods |-> Core(st[m])]>>
 =============================================================================
